@@ -157,6 +157,7 @@ class Interp(ExprMixin, LoopMixin, CallMixin):
         self.in_handler = []   # stack of currently handled exceptions (for bare raise)
         self.origin = {}       # symbol -> provenance description
         self.user = {}         # objects the entry wants to find again
+        self.all_files = []
 
     # ---------------------------------------------------------------- naming / choices
     def fresh(self, base):
@@ -255,6 +256,7 @@ class Interp(ExprMixin, LoopMixin, CallMixin):
     # ---------------------------------------------------------------- entry helpers
     def new_file(self, name, tags=frozenset(), mode=None):
         f = FileV(name, tags=tags, mode=mode)
+        self.all_files.append(f)
         return f
 
     def sym_bytes(self, name, tags=frozenset(), lo=0, hi=None, charset=None):
@@ -434,7 +436,7 @@ class Interp(ExprMixin, LoopMixin, CallMixin):
 
     def st_Return(self, st):
         v = self.eval(st.value) if st.value is not None else ConstV(None)
-        self.event('return', st, value=v)
+        self.event('return', st, value=v, locals=dict(self.frames[-1].locals))
         raise Returned(v)
 
     def st_Raise(self, st):
